@@ -19,6 +19,7 @@
 #include <core/sync.h>
 #include <datatypes/msg_queue.h>
 #include <distributed/mpi.h>
+#include <log/stats.h>
 
 #include <memory.h>
 #include <stdatomic.h>
@@ -274,8 +275,12 @@ simtime_t gvt_phase_run(void)
 
 void gvt_msg_drain(void)
 {
-	while(thread_phase != thread_phase_idle) // flush partial gvt algorithm
-		gvt_phase_run();
+	while(thread_phase != thread_phase_idle) { // flush partial gvt algorithm
+		simtime_t current_gvt = gvt_phase_run();
+		// the other threads of this round record it from the main loop: keep the per-thread records aligned
+		if(unlikely(current_gvt != 0.0))
+			stats_on_gvt(current_gvt);
+	}
 
 	if(sync_thread_barrier())
 		mpi_node_barrier();
